@@ -93,6 +93,7 @@ def pat_bindings(p):
 # single field): filled by sir.Facts; such an enum is read as an Option everywhere (`Total::Empty` = None, `Total::Running(x)` = Some(x)).
 OPTION_LIKE_SOME = set()
 OPTION_LIKE_NONE = set()
+OPTION_LIKE_SOME_MULTI = set()
 
 
 def _is_some_path(name):
